@@ -211,3 +211,172 @@ REG.spec('raptor/master.py:Master._result_cb',
                    'tasks[i].target_state == state_of_exit(old(tasks)[i])))']},
     opts   = dict(merge='scalars'),
     serves = ['C05', 'C20'])
+
+
+# ------------------------------------------------------------------------------
+# DefaultWorker._request_cb / _result_cb: allocate before dispatch, release on
+# every outcome, every accepted request is started or answered - exactly one
+#
+from pyvc.calls import call_contract as _call_contract
+
+WProc  = T.Rec('WProc', pid=T.Int)
+RTaskL = T.List(RTask)
+
+def _w_alloc(ex, node, st):
+    """self._alloc(task) by its verified contract; ghost: one more grant if it
+    returns True"""
+    r = _call_contract(ex, st, REG.get('raptor/worker_default.py:DefaultWorker._alloc'), node)
+    n = ex.get_var(st, 'n_grant')
+    st.env['n_grant'] = _Val(T.Int, n.term + _z3.If(r.term, 1, 0))
+    return r
+_w_alloc.mutates = ('self._resources', 'task', 'n_grant')
+
+def _w_dealloc(ex, node, st):
+    r = _call_contract(ex, st, REG.get('raptor/worker_default.py:DefaultWorker._dealloc'), node)
+    n = ex.get_var(st, 'n_release')
+    st.env['n_release'] = _Val(T.Int, n.term + 1)
+    return r
+_w_dealloc.mutates = ('self._resources', 'n_release')
+
+def _w_sleep(ex, node, st):
+    """time.sleep between two allocation attempts: the result watcher thread may
+    release cells of other requests meanwhile - any occupancy vector of the same
+    size (environment step under _rlock)"""
+    ty = WRes
+    new = ex.fresh_wf(st, ty, 'res_env')
+    st.env['self._resources'] = new
+    sub = st.fork(); sub.env = dict(st.env)
+    for t in _inv[:2]:
+        st.assume(ex.spec_bool(t, sub))
+    return _C.NONE
+_w_sleep.mutates = ('self._resources',)
+
+def _w_mkproc(ex, node, st):
+    """mp.Process(target=.., args=..): a process object, or an exception (no process)"""
+    e = st.fork(); e.guards = []
+    ex.exits.append(('Exception', e, ex.cur_line))
+    return _fresh(WProc, 'proc')
+_w_mkproc.mutates = ()
+
+def _w_start(ex, node, st):
+    """proc.start(): the process runs the request (ghost start_log), or an
+    exception and no process (assumed: nothing in between)"""
+    e = st.fork(); e.guards = []
+    ex.exits.append(('Exception', e, ex.cur_line))
+    t = ex.get_var(st, 'task')
+    log = ex.get_var(st, 'start_log')
+    ty = log.ty
+    n = ty.len(log.term)
+    st.env['start_log'] = _Val(ty, ty.mk(_z3.Store(ty.arr(log.term), n, t.ty.get(t.term, 'uid')), n + 1))
+    return _C.NONE
+_w_start.mutates = ('start_log',)
+
+def _w_put(ex, node, st):
+    t = _coerce(ex.ev(node.args[0], st), RTask)
+    log = ex.get_var(st, 'put_log')
+    ty = log.ty
+    n = ty.len(log.term)
+    st.env['put_log'] = _Val(ty, ty.mk(_z3.Store(ty.arr(log.term), n, t.term), n + 1))
+    return _C.NONE
+_w_put.mutates = ('put_log',)
+
+def _w_trace(ex, node, st):
+    return _Val(T.List(T.Str), _z3.Const(_C.fresh_name('trace'), T.List(T.Str).sort()))
+_w_trace.mutates = ()
+
+_w_self  = dict(_self, _uid=T.Str, _task_env=T.Map(T.Str, T.Str), _pool=T.Map(T.Int, WProc))
+_w_ghost = dict(n_grant=T.Int, n_release=T.Int, start_log=T.List(T.Str), put_log=RTaskL)
+_w_calls = {'self._alloc': _w_alloc, 'self._dealloc': _w_dealloc, 'time.sleep': _w_sleep, 'mp.Process': _w_mkproc,
+            'proc.start': _w_start, 'self._res_put.put': _w_put, 'ru.get_exception_trace': _w_trace}
+# the demand is within the worker's size (the property's quantifier), so _alloc
+# does not assert
+_in_size = 'want_gpus(%s) >= 0 and 1 <= want_cores(%s) <= self._n_cores and want_gpus(%s) <= self._n_gpus'
+
+REG.spec('raptor/worker_default.py:DefaultWorker._request_cb#one',
+    fragment = 'try:',
+    params   = dict(task=RTask),
+    self     = _w_self,
+    ghost    = _w_ghost,
+    locals   = dict(env=T.Map(T.Str, T.Str), proc=WProc),
+    calls    = _w_calls,
+    requires = _inv + [_in_size % ('task', 'task', 'task')],
+    modifies = ['self._resources', 'self._task_env', 'self._pool', 'task', 'n_grant', 'n_release', 'start_log', 'put_log'],
+    raises   = {},
+    no_raise_is_property = True,
+    ensures  = _inv + [
+      ('the-request-is-started-or-answered-exactly-one',
+       '(len(start_log) - len(old(start_log))) + (len(put_log) - len(old(put_log))) == 1 and '
+       'len(start_log) >= len(old(start_log)) and len(put_log) >= len(old(put_log))'),
+      ('started-only-after-a-grant-which-it-keeps',
+       'implies(len(start_log) > len(old(start_log)), start_log[len(old(start_log))] == old(task).uid and '
+       'n_grant == old(n_grant) + 1 and n_release == old(n_release) and is_some(task.slots) and '
+       'len(val(task.slots)[0].cores) == want_cores(old(task)) and '
+       'named_cells(self._resources.cores, self._resources.cores, val(task.slots)[0].cores, 1, 1) and '
+       'named_cells(self._resources.gpus, self._resources.gpus, val(task.slots)[0].gpus, 1, 1))'),
+      ('answered-without-a-process-gives-its-grant-back-and-carries-the-error',
+       'implies(len(put_log) > len(old(put_log)), put_log[len(old(put_log))].uid == old(task).uid and '
+       'put_log[len(old(put_log))].exception is not None and '
+       'n_grant == old(n_grant) + 1 and n_release == old(n_release) + 1)'),
+      ('earlier-records-kept',
+       'forall(lambda k: implies(0 <= k < len(old(put_log)), put_log[k] == old(put_log)[k])) and '
+       'forall(lambda k: implies(0 <= k < len(old(start_log)), start_log[k] == old(start_log)[k]))'),
+    ],
+    loops = {'1': ['task == old(task)', 'n_grant == old(n_grant)', 'n_release == old(n_release)', 'start_log == old(start_log)',
+                   'put_log == old(put_log)', 'self._n_cores == old(self._n_cores)'] + _inv[:2]},
+    serves = ['C20'])
+
+REG.spec('raptor/worker_default.py:DefaultWorker._request_cb',
+    params   = dict(tasks=RTaskL),
+    self     = _w_self,
+    ghost    = _w_ghost,
+    calls    = dict(_w_calls, **{'ru.as_list': lambda ex, node, st: ex.ev(node.args[0], st)}),
+    stmt_contracts = {'try:': 'raptor/worker_default.py:DefaultWorker._request_cb#one'},
+    requires = _inv + ['forall(lambda i: implies(0 <= i < len(tasks), %s))' % (_in_size % ('tasks[i]', 'tasks[i]', 'tasks[i]'))],
+    modifies = ['self._resources', 'self._task_env', 'self._pool', 'tasks', 'n_grant', 'n_release', 'start_log', 'put_log'],
+    raises   = {},
+    no_raise_is_property = True,
+    ensures  = _inv + [
+      ('every-request-of-the-bulk-is-started-or-answered-exactly-one',
+       '(len(start_log) - len(old(start_log))) + (len(put_log) - len(old(put_log))) == len(tasks)'),
+      ('grants-outstanding-equal-requests-started',
+       '(n_grant - old(n_grant)) - (n_release - old(n_release)) == len(start_log) - len(old(start_log))'),
+      ('answered-requests-carry-the-error',
+       'forall(lambda k: implies(len(old(put_log)) <= k < len(put_log), put_log[k].exception is not None))'),
+    ],
+    loops = {'1': _inv[:2] + [
+       '(len(start_log) - len(old(start_log))) + (len(put_log) - len(old(put_log))) == i_task',
+       'len(start_log) >= len(old(start_log))', 'len(put_log) >= len(old(put_log))',
+       '(n_grant - old(n_grant)) - (n_release - old(n_release)) == len(start_log) - len(old(start_log))',
+       'forall(lambda k: implies(len(old(put_log)) <= k < len(put_log), put_log[k].exception is not None))']},
+    serves = ['C20'])
+
+WResult = T.Tuple(RTask, OAny, OAny, OAny, OAny, T.List(OAny))
+_held_r = [h.replace('task.', 'result[0].') for h in _held]
+
+REG.spec('raptor/worker_default.py:DefaultWorker._result_cb',
+    params   = dict(result=WResult),
+    self     = _w_self,
+    ghost    = _w_ghost,
+    locals   = dict(task=RTask),
+    calls    = _w_calls,
+    # a result comes back for a request that was started: it holds its grant and
+    # its process is registered (both established by _request_cb, contract above)
+    requires = _inv + _held_r + ['result[0].pid is not None', 'indom(self._pool, val(result[0].pid))', 'len(result[5]) >= 2'],
+    modifies = ['self._resources', 'self._pool', 'result', 'n_release', 'put_log'],
+    raises   = {},
+    no_raise_is_property = True,
+    ensures  = _inv + [
+      ('the-grant-is-given-back-once', 'n_release == old(n_release) + 1 and n_grant == old(n_grant)'),
+      ('the-request-is-answered-once-with-what-the-call-produced',
+       'len(put_log) == len(old(put_log)) + 1 and put_log[len(old(put_log))].uid == old(result)[0].uid and '
+       'put_log[len(old(put_log))].stdout == old(result)[1] and put_log[len(old(put_log))].stderr == old(result)[2] and '
+       'put_log[len(old(put_log))].exit_code == old(result)[3] and put_log[len(old(put_log))].return_value == old(result)[4] and '
+       'put_log[len(old(put_log))].exception == old(result)[5][0] and put_log[len(old(put_log))].exception_detail == old(result)[5][1]'),
+      ('its-process-entry-is-removed-and-no-other',
+       'not indom(self._pool, val(old(result)[0].pid)) and forall(lambda p: implies(p != val(old(result)[0].pid), '
+       'indom(self._pool, p) == indom(old(self._pool), p)), Int)'),
+      ('cores-given-back', 'named_cells(old(self._resources.cores), self._resources.cores, val(old(result)[0].slots)[0].cores, 1, 0)'),
+      ('gpus-given-back',  'named_cells(old(self._resources.gpus), self._resources.gpus, val(old(result)[0].slots)[0].gpus, 1, 0)'),
+      ('earlier-answers-kept', 'forall(lambda k: implies(0 <= k < len(old(put_log)), put_log[k] == old(put_log)[k]))'),
+    ],
+    serves = ['C20'])
